@@ -34,12 +34,15 @@ CLAIMED = {
    note="Trusted: prelude/exactnum.h (GMP contracts: canonicalize and mpq operators return canonical values; integer_class is a mathematical integer), extraction rules, CBMC.",
    tech="contract-based deductive verification with CBMC on mechanically extracted function text (route F: loop-free, full domain, callers checked against assumed GMP contracts); bounded value check (route B) as stand-in for result values"),
  "C25": dict(cat="proof", design="§4 C25",
-   text="Inductive contract proof (CBMC function and loop contracts via goto-instrument --dfcc, every iteration count) of the CSR canonical-form "
+   text="(1) PROVED: inductive contract proof (CBMC function and loop contracts via goto-instrument --dfcc, every iteration count) of the CSR canonical-form "
         "predicates csr_has_sorted_indices / csr_has_duplicates / csr_has_canonical_format on their real bodies (soundness with ghost indices, completeness "
-        "with bounded witnesses, frame, termination, bounds/overflow), the last one modularly against the callee contracts. Array lengths are capped "
-        "(K=16 quick, 32 thorough) by the precondition.",
-   note="Trusted: signature-only rewrite std::vector<unsigned>& -> pointer; CBMC tool chain.",
-   tech="contract-based deductive verification: CBMC code contracts with loop invariants and decreases clauses (route P), modular --replace-call-with-contract"),
+        "with bounded witnesses, frame, termination, bounds/overflow), the last one modularly against the callee contracts; array lengths capped (K=16 quick, 32 thorough) "
+        "by the precondition. (2) BOUNDED stand-in, not counted as proved: the real text of CSRMatrix::get, set (single and two consecutive updates), is_canonical, "
+        "csr_sum_duplicates, from_coo, transpose, csr_diagonal, csr_scale_rows/columns, csr_binop_csr_canonical (add, sub, mul) started from an ARBITRARY canonical matrix "
+        "(2x3 quick; 3x3 and 3x2 thorough; entries in GF(3); every sparsity pattern): result canonical (the constructors' SYMENGINE_ASSERT as an obligation) and entry-by-entry "
+        "equal to the same operation on the dense expansion read by an independent linear scan; every vector index in range.",
+   note="Trusted: signature-only rewrite std::vector<unsigned>& -> pointer (route P); field prelude and vector stubs (route B); csr_sort_indices replaced by its assumed contract (lambda); CBMC tool chain.",
+   tech="contract-based deductive verification: CBMC code contracts with loop invariants and decreases clauses (route P), modular --replace-call-with-contract; pre/postcondition harnesses over a finite-field abstraction with bounded unwinding + unwinding assertions (route B) as stand-in for the operations"),
  "C33": dict(cat="model_checking", design="§4 C33",
    text="History quantifier removed by a representation invariant INV (cache = first n >= 10 primes, sieve size >= 1): every public operation "
         "(generate_primes, iterator ctor/dtor/next_prime, clear, set_clear, set_sieve_size) is verified by CBMC on its real text from an ARBITRARY INV state "
